@@ -24,8 +24,10 @@ SIG_FOREIGN = 'C16:free-below-offset-negative-index'
 
 # ---------------------------------------------------------------------------
 def gen_case(rng, malformed=False):
-    size = rng.choice([4, 5, 6, 7, 8, 10, 12, 16, 20, 32, 48, 64])
+    size = rng.choice([1, 2, 3, 4, 5, 6, 7, 8, 10, 12, 16, 20, 32, 48, 64])
     pos = rng.choice([0, 0, 1, 2, 3])
+    if pos >= size and not malformed:
+        pos = 0
     client = rng.choice([0, 1, 2, 3])
     io = rng.choice([0, 0, 0, 2, 4, 7])
     off = client * size + io
@@ -57,7 +59,7 @@ def gen_case(rng, malformed=False):
 
 def gen_fill_case(rng):
     """boundary-biased: fill the partition exactly, free first / last / neighbours (merge with previous, next, both), ask for everything"""
-    size = rng.choice([4, 5, 6, 8, 10, 12, 16, 24])
+    size = rng.choice([1, 2, 3, 4, 5, 6, 8, 10, 12, 16, 24])
     pos = rng.choice([0, 0, 1, 2, 3])
     if pos >= size - 1:
         pos = 0
